@@ -653,7 +653,14 @@ func C04(run *Run) {
 					fillV2(ev, v1def, cs, ts, q)
 					rec.Add(ev)
 					run.Evals++
+					if V2RanAway.Load() {
+						break // KF-28: the abandoned call keeps spawning goroutines; judge what was recorded and finish
+					}
 				}
+			}
+			if V2RanAway.Load() {
+				run.Note("KF-28: a weighted-graph Check neither answered nor stopped when cancelled (case %d); exploration cut short there, input in replays/v2-runaway-*.txt", c)
+				break
 			}
 			if i%4 == 0 {
 				for _, eng := range loEngines {
@@ -684,6 +691,9 @@ func C04(run *Run) {
 			if len(ct) > 0 {
 				run.Nontrivial(hashOf([]any{cs.Model, stored, ct, q}))
 			}
+		}
+		if V2RanAway.Load() {
+			break
 		}
 		// contextual tuples never persist: read the store back through the API
 		dump, err := v.Base.ReadAll(ctx)
